@@ -295,3 +295,124 @@ def c01(run, replay):
         rule="all 1050 rows of Signature.tla (0-3 params x ctx x raw params x return shape x handler outcome x transport x formatter), "
              "each with several seeded value tuples; distinct = distinct abstract rows",
         sig=lambda t: "row %s" % json.dumps(t["row"], sort_keys=True), harness_timeout=1800, trace_timeout=1800)
+
+
+# --------------------------------------------------------------------------------------------- protocol properties (WsRpc / Obs)
+HOOK_POINTS_REQ = ["inflight.add", "write.req.pre", "write.req", "main.req", "resp.lookup", "resp.deliver.pre", "resp.deliver", "inflight.del",
+                   "exec.pop", "rd.msg.pre", "rd.queue", "main.incoming", "req.enq.pre", "req.enq", "req.ret", "cancel.enq.pre", "call.spawn",
+                   "handling.add", "h.call.pre", "h.ret", "h.resp.pre", "lazy.acquire.pre"]
+
+
+def run_ws_scenarios(run, wd, scen, tag, hooks=False, timeout=1800):
+    """Runs protocol scenarios against the real code and lets TLC (ObsTrace) evaluate every property predicate on the recorded
+    events. Returns (trace, violations) with violations as [scenario, property, clause, call]."""
+    import shutil
+    sf = os.path.join(wd, "scen_%s.ndjson" % tag)
+    with open(sf, "w") as f:
+        for s in scen:
+            f.write(json.dumps(s) + "\n")
+    tf = "trace_%s.ndjson" % tag
+    run.harness("ws", wd, infile=os.path.basename(sf), outfile=tf, timeout=timeout, args={"hooks": "1"} if hooks else None)
+    shutil.copy(os.path.join(wd, tf), os.path.join(wd, "trace.ndjson"))
+    res = run.validate_trace(wd, "ObsTrace.tla", "ObsTrace.cfg", timeout=1800)
+    trace = vp.read_ndjson(os.path.join(wd, tf))
+    run.cov["traces_validated_against_impl"] += len(scen)
+    run.cov["evaluations"] += len(scen)
+    return trace, res.get("viol", [])
+
+
+def report_ws(run, trace, viol, prop, scen, label):
+    """Turns ObsTrace violations of `prop` into verdicts; violations of other properties seen on the same scenarios are
+    recorded in the evidence (they are reported by that property's own check)."""
+    by_sc = {}
+    cur = None
+    for t in trace:
+        if t.get("ev") == "reset":
+            cur = t.get("sc")
+            by_sc[cur] = []
+        if cur is not None:
+            by_sc[cur].append(t)
+    cross = {}
+    for v in viol:
+        scn, p, clause, call = v
+        if p != prop:
+            cross["%s:%s" % (p, clause)] = cross.get("%s:%s" % (p, clause), 0) + 1
+            continue
+        evs = by_sc.get(scn, [])
+        name = evs[0].get("name") if evs else "?"
+        run.violation("%s %s: %s" % (label, name, clause), clause,
+                      {"property": prop, "scenario": scen[scn - 1] if 0 < scn <= len(scen) else None, "clause": clause, "call": call,
+                       "events": [e for e in evs if not str(e.get("ev", "")).startswith("h:")][:300], "seed": run.seed})
+    if cross:
+        run.cov.setdefault("other_property_clauses_seen", {}).update(cross)
+
+
+def perms(n):
+    import itertools
+    return [list(p) for p in itertools.permutations(range(1, n + 1))]
+
+
+def sim_behaviours(run, wd, module, cfg, num, depth, name):
+    import simparse
+    simdir = os.path.join(wd, "sim_" + name)
+    os.makedirs(simdir, exist_ok=True)
+    res = run.tlc(wd, module, cfg, workers=1, timeout=600, tag="model_runs",
+                  extra=["-simulate", "file=%s/b,num=%d" % (simdir, num), "-depth", str(depth), "-seed", str(run.seed)])
+    if res["rc"] != 0:
+        raise vp.ToolFailure("TLC simulation of %s failed:\n%s" % (module, res["out"][-2000:]))
+    return simparse.behaviours(os.path.join(simdir, "b"))
+
+
+@check("C02")
+def c02(run, replay):
+    run.assumptions += [
+        "model: WsRpc.tla, 3 concurrent unary calls (4 with a notification in thorough), caller cancellation allowed, no faults; every "
+        "interleaving of registration, write, server completion order, read, lookup, delivery, delete",
+        "real executions: every completion order for N <= 4 callers (ws) and N = 3 (http), mixed method kinds incl. reverse calls, "
+        "TLC-simulated scripts (start order, cancelled set, completion order), and stress runs with seeded delays at the hook points "
+        "around in-flight registration, request write, response lookup and delivery",
+        "quiescence = a probe call issued afterwards round-tripped; outstanding calls get a 2 s grace before they are reported",
+    ]
+    thorough = run.tier == "thorough"
+    wd = run.dir("work")
+    rnd = random.Random(run.seed)
+    run.model_check(wd, "WsRpc.tla", "WsRpc_c02.cfg" if thorough else "WsRpc_c02q.cfg", timeout=1800)
+    tok = {"u1": 1, "u2": 2, "u3": 3}
+    scen = []
+    for n in (2, 3, 4):
+        for p in perms(n):
+            scen.append({"sc": "c02.perm", "args": {"n": n, "perm": p, "transport": "ws"}})
+    for p in perms(3):
+        scen.append({"sc": "c02.perm", "args": {"n": 3, "perm": p, "transport": "http"}})
+    for p in rnd.sample(perms(4), 6 if not thorough else 24):
+        scen.append({"sc": "c02.perm", "args": {"n": 4, "perm": p, "transport": "ws", "mixed": True, "reverse": True}})
+    # TLC-simulated behaviours projected to scripts
+    for init, steps in sim_behaviours(run, wd, "WsRpc.tla", "WsRpc_c02sim.cfg", 200 if thorough else 60, 80, "c02"):
+        order = [tok[a[0]] for act, a in steps if act == "CallStart" and a and a[0] in tok]
+        perm = [tok[a[1]] for act, a in steps if act == "SrvRespond" and len(a) > 1 and a[1] in tok]
+        started = set()
+        cancel = []
+        for act, a in steps:
+            if act == "SrvRecv":
+                pass
+            if act == "CtxCancel" and a[0] in tok and tok[a[0]] not in cancel:
+                cancel.append(tok[a[0]])
+        if order:
+            scen.append({"sc": "c02.script", "args": {"order": order, "perm": perm, "cancel": [c for c in cancel if c in order], "transport": "ws"}})
+    for i in range(12 if not thorough else 60):
+        scen.append({"sc": "c02.stress", "args": {"n": rnd.choice([8, 16, 32, 64]), "transport": "ws", "cancel": i % 2 == 0, "p": rnd.choice([0.1, 0.3, 0.6]),
+                                                  "delay": rnd.sample(HOOK_POINTS_REQ, 6)}})
+    for i in range(8 if not thorough else 30):
+        scen.append({"sc": "c02.stress", "args": {"n": rnd.choice([8, 32, 64]), "transport": "http", "cancel": i % 2 == 0, "procs": 1 if i % 2 == 0 else 0}})
+    for i in range(4 if not thorough else 16):
+        scen.append({"sc": "c02.stress", "args": {"n": rnd.choice([8, 16]), "transport": rnd.choice(["http", "http", "ws"]), "allbig": True, "procs": 1 if i % 2 == 0 else 0}})
+    for i in range(4 if not thorough else 12):
+        scen.append({"sc": "c02.stress", "args": {"n": rnd.choice([16, 64]), "transport": "ws", "cancel": True, "procs": 1, "p": 0.3,
+                                                  "delay": rnd.sample(HOOK_POINTS_REQ, 6)}})
+    trace, viol = run_ws_scenarios(run, wd, scen, "c02")
+    report_ws(run, trace, viol, "C02", scen, "scenario")
+    run.cov["distinct_nontrivial"] = len(set(json.dumps(s, sort_keys=True) for s in scen))
+    run.cov["rule"] = "scenarios as listed in assumptions; distinct = distinct scenario descriptions (kind, permutation / script, transport, perturbation set)"
+    for s in scen[:2] + scen[-2:]:
+        run.sample(s)
+    run.sample([e for e in trace if not str(e.get("ev", "")).startswith("h:")][1:12])
